@@ -129,6 +129,8 @@ class Engine:
         _WATCHDOG.arm(self.solver.ctx, t + self.qtimeout_ms / 1000.0 * 1.5 + 2.0)
         try:
             r = self.solver.check(*extra)
+        except z3.Z3Exception:
+            r = z3.unknown          # e.g. 'canceled' after a watchdog interrupt
         finally:
             _WATCHDOG.disarm()
         self.solver_s += time.time() - t
@@ -136,14 +138,23 @@ class Engine:
             self.unknowns += 1
         return r
 
+    def _get_model(self):
+        try:
+            return self.solver.model()
+        except z3.Z3Exception:
+            return None              # an interrupted query can answer sat without a usable model
+
     def _refresh_model(self):
         if self.model_ok:
             return True
         r = self._check()
         if r == z3.sat:
-            self.model = self.solver.model()
-            self.model_ok = True
-            return True
+            self.model = self._get_model()
+            self.model_ok = self.model is not None
+            if self.model_ok:
+                return True
+            self.unknowns += 1
+            return False
         if r == z3.unsat:
             raise Abort()
         self.model = None
@@ -246,8 +257,8 @@ class Engine:
             if r == z3.unsat:
                 raise Abort()
             if r == z3.sat:
-                self.model = self.solver.model()
-                self.model_ok = True
+                self.model = self._get_model()
+                self.model_ok = self.model is not None
             else:
                 self.maybe_infeasible = True
 
@@ -332,8 +343,8 @@ class Engine:
         if r == z3.unsat:
             return 'ok', None
         if r == z3.sat:
-            m = self.solver.model()
-            if self._valid_model(m, neg):
+            m = self._get_model()
+            if m is not None and self._valid_model(m, neg):
                 return 'cex', m
             self.bad_models += 1
         # fallbacks: nlsat tactic (non-incremental), then the z3 4.8.12 binary
@@ -376,9 +387,10 @@ class Engine:
             if cond:
                 self.checks.append((label, 'ok', None))
                 return True
-            # plain False on a feasible path: counterexample is any model of pc
+            # plain False on a feasible path: counterexample is any (validated) model of pc
             st, m = ('cex', None)
-            if self._refresh_model():
+            self.model_ok = False
+            if self._refresh_model() and self._valid_model(self.model, z3.BoolVal(True)):
                 m = self.model
             else:
                 st = 'unknown'
